@@ -329,6 +329,11 @@ def gen_case(rng):
     else:
         d = rng.standard_normal(n)
         x0 = xtrue + float(10.0 ** rng.uniform(-2.0, 1.5)) * d / np.linalg.norm(d)
+    if rng.integers(0, 8) == 0:
+        # warm start from the unregularised least-squares solution of a consistent system: the residual at x0 is exactly
+        # zero while the regularised objective is not (kept by the bounds kinds 'none' and 'around')
+        b = A @ xtrue
+        x0 = xtrue.copy()
     kind = KINDS[int(rng.integers(0, 4))]
     npt = n + 1 if rng.integers(0, 2) else int(rng.integers(n + 1, 2 * n + 2))
     conv = CONVS[int(rng.integers(0, 4))]
